@@ -31,8 +31,9 @@
                                  (object, alternative) pair itself stays in the memo and is skipped when it comes up again --
                                  `shared_alternative_leak_witness` (dict{A : Integer|String, B : Integer} accepts
                                  << /A (s) /B (s) >>) and `memo_leak_witness`.  A correct fragment F2 needs a PRIVACY condition
-                                 (`Frag.inF2`, stated and tested by the judge, not proved): every alternative of a disjunction
-                                 is a leaf check that occurs nowhere else among the reachable checks.
+                                 (`Frag.inF2`): every alternative of a disjunction is a leaf check that occurs nowhere else
+                                 among the reachable checks.  On F2 machine = specification is PROVED:
+                                 `machine_eq_conforms_F2` (Props/C08F2.lean, Lemmas/TypeCheckSoundF2.lean).
     machine_complete             FULL, ALL specifications (disjunctions included): for every graph, context, object and every
                                  WELL-FORMED specification (`Frag.wfSpec ctx c`, decidable, Spec/TypeCheckWF.lean: every name is
                                  bound to a representation, no empty disjunction -- the three ways to leave check_type through an
@@ -554,7 +555,7 @@ theorem shared_alternative_leak_witness :
     (checkTypeFuel Fix.tree [] [] 50 oH tH).1 = .accept ∧ gfp [] [] oH tH = false ∧
     (checkTypeFuel { Fix.tree with trail := true } [] [] 50 oH tH).1 = .reject .typeMismatch := by decide
 
-/-! ### fragment F2 (disjunctions of private leaf alternatives): stated (`Frag.inF2`), tested by the judge, NOT proved -/
+/-! ### fragment F2 (disjunctions of private leaf alternatives): `Frag.inF2`; the theorem is in Props/C08F2.lean -/
 -- inside F2: an array of (Integer | Real) of size 4 (the shipped "rectangle"), also with an indirect requirement on the disjunction
 example : Frag.inF2 [] (.array Attr.dflt (.disj Attr.dflt (alts [I, .prim Attr.dflt .real])) (some 4)) = true := by decide
 example : Frag.inF2 [] (.array Attr.dflt (.disj ⟨none, .required⟩ (alts [I, S'])) none) = true := by decide
